@@ -279,4 +279,28 @@ CHECKS = {
              "thorough": {"checks": 20000, "shards": 16, "timeout": 3400}},
         ],
     },
+    "C12": {
+        "level": "exploration",
+        "level_text": ("The real SnapshotSender admission code (handlePeerJoined / handleManifestAccept / handlePeerLeft / "
+                       "maybeStartTransfers / runTransfer / cleanup) is driven with generated event sequences over 3-5 receivers; the "
+                       "transfer itself is a stub that registers each run instance and blocks until the harness releases it with success, "
+                       "failure, or - for a cancelled instance - its context error, so the order between a leave and the return of the "
+                       "cancelled goroutine (including leave, re-accept, then the old instance returns) is a generated choice. After "
+                       "every event the harness waits for quiescence (hook at the end of runTransfer) and checks invariants: at most "
+                       "max-receivers live instances (measured on the stubs), starts in accept order, no free slot while receivers wait, "
+                       "no instance started with a cancelled context, leave cancels, every receiver in at most one of queued / "
+                       "transferring / done / failed and consistent with the queue and slot tables. All sequences of length 3 (thorough 5) "
+                       "over a 12-event alphabet are enumerated for max-receivers 1 and 2."),
+        "level_note": "The real transfer function is stubbed (the property is about admission); emitted envelopes are not captured (no signaling connection), state is read white-box under the sender's mutex.",
+        "technique": "model-based stateful property testing (rapid-generated and bounded-exhaustive event sequences) with invariants checked after every step against stub-measured concurrency",
+        "rule": ("sequence of join/accept/leave/success/failure/cancelled-return/cleanup events; non-trivial = at some point receivers "
+                 "waited while all slots were busy; distinct by (max-receivers, sequence)."),
+        "assumptions": ["quiescence = every released instance reached the end of runTransfer and every slot has an entered instance"],
+        "exhaustive_if_units": ["exhaustive"],
+        "units": [
+            {"name": "app", "pkg": "./internal/app", "run": "^TestVerifC12",
+             "quick": {"checks": 1500, "shards": 4, "timeout": 900},
+             "thorough": {"checks": 20000, "shards": 16, "timeout": 3400}},
+        ],
+    },
 }
